@@ -103,7 +103,8 @@ theorem readSlots_declare (st : St) (x : Name) (w : Val) : ∀ (ss : List Slot) 
         exact h
 
 /-- **sequential multi-define = two-phase multi-define** when no right-hand side slot is one of the
-    variables declared at or before its position and nothing is merely redeclared -/
+    variables declared at or before its position and nothing is merely redeclared (the mechanism before commit
+    3e30c22 of the repository: kept as the precise statement of what F21 was) -/
 theorem bindFromSlots_spec : ∀ (xs : List Name) (rd : List Bool) (zs : List Val) (ss : List Slot) (vs : List Val)
     (seen : List Name) (st : St), rd.any id = false → readSlots st ss = .ok vs → slotDep xs ss seen = false →
     bindFromSlots share st xs rd zs ss = Spec.declareAll st xs rd vs
@@ -165,33 +166,36 @@ theorem evalSlots_dep : ∀ (rs : List RExp) (xs : List Name) (seen : List Name)
         | nil => simp only [slotDep, seqDep, hk, evalSlots_dep rs [] seen st1 ss' st2' hes]
         | cons x xs => simp only [slotDep, seqDep, hk, evalSlots_dep rs xs (x :: seen) st1 ss' st2' hes]
 
-/-- `x1, x2, … := r1, r2, …` -/
+theorem bindAll_spec : ∀ (xs : List Name) (rd : List Bool) (vs : List Val) (st : St), rd.any id = false →
+    bindAll share st xs rd vs = Spec.declareAll st xs rd vs
+  | [], _, _, _, _ => by simp [bindAll, Spec.declareAll]
+  | _ :: _, [], _, _, _ => by simp [bindAll, Spec.declareAll]
+  | _ :: _, _ :: _, [], _, _ => by simp [bindAll, Spec.declareAll]
+  | x :: xs, r :: rd, v :: vs, st, hrd => by
+    simp only [List.any_cons, id, Bool.or_eq_false_iff] at hrd
+    obtain ⟨hr0, hrd⟩ := hrd
+    subst hr0
+    simp only [bindAll, Spec.declareAll, Bool.false_and, Bool.false_eq_true, if_false]
+    exact bindAll_spec xs rd vs _ hrd
+
+/-- `x1, x2, … := r1, r2, …` (two-phase since commit 3e30c22 of the repository) -/
 theorem multidefY_spec (st : St) (xs : List Name) (rd : List Bool) (zs : List Val) (rs : List RExp) (inBody reexec : Bool)
     (h : sopClass inBody (.multidef xs rd zs rs) = none) :
     multidefY share reexec st xs rd zs rs = Spec.multidef st xs rd rs := by
-  have hlit : anyCompositeLit rs = false := by
-    cases hc : anyCompositeLit rs with
-    | false => rfl
-    | true => simp [sopClass, hc] at h
-  have hseq : seqDep xs rs [] = false := by
-    cases hc : seqDep xs rs [] with
-    | false => rfl
-    | true => simp [sopClass, hlit, hc] at h
   have hrd : rd.any id = false := by
     cases hc : rd.any id with
     | false => rfl
-    | true => simp [sopClass, hlit, hseq, hc] at h
+    | true => simp [sopClass, hc] at h
   unfold multidefY Spec.multidef
-  rw [anyShortcutDefine_share, hlit]
-  simp only [share_shortcutGuardsSingle, share_multiDefineTemps, Bool.not_false, Bool.and_false, Bool.false_eq_true,
-    if_false, bind, Except.bind]
+  simp only [share_shortcutGuardsSingle, share_multiDefineTemps, Bool.not_true, Bool.false_and, Bool.false_eq_true,
+    if_false, if_true, bind, Except.bind]
   obtain ⟨hok, herr⟩ := evalSlots_spec rs st
   cases he : evalSlots st rs with
   | error e => simp [herr e he]
   | ok p =>
     obtain ⟨ss, st1⟩ := p
     obtain ⟨_, vs, hrs, hall⟩ := hok ss st1 he
-    simp only [hall]
-    exact bindFromSlots_spec xs rd zs ss vs [] st1 hrd hrs (by rw [evalSlots_dep rs xs [] st ss st1 he]; exact hseq)
+    simp only [hall, hrs]
+    exact bindAll_spec xs rd vs st1 hrd
 
 end YaegiVerif.Share
